@@ -227,6 +227,12 @@ impl Series1 {
                 if !m.is_finite() {
                     continue;
                 }
+                if m == 0.0 {
+                    // The whole segment lies on the level, report both of its ends
+                    crossings.push(x0);
+                    crossings.push(x1);
+                    continue;
+                }
                 let x = x0 + (y_equals - v0) / m;
                 crossings.push(x);
             }
